@@ -10,6 +10,17 @@
 
 package grumpkin
 
+//@ func io.ReadFull
+//@ assumed io.ReadFull (standard library): copies into buf from the reader and reports how many bytes it copied, at most len(buf), and exactly len(buf) when it returns no error
+//@ ensures 0 <= result0 && result0 <= len(buf) && (isnil(result1) ==> result0 == len(buf))
+//@ modifies buf
+//@ end
+
+//@ func (io.Writer).Write
+//@ assumed interface io.Writer: Write reports how many bytes of p it wrote, at most len(p), and returns an error when it wrote fewer; it neither keeps nor changes p
+//@ ensures 0 <= result0 && result0 <= len(p) && (isnil(result1) ==> result0 == len(p))
+//@ end
+
 //@ func Decoder.Decode
 //@ variant u64-matrix
 //@ dyntype v *[][]uint64
@@ -93,8 +104,11 @@ package grumpkin
 //@ option opaque-calls
 //@ option nomerge
 //@ ghost failed = false
+//@ requires 0 <= dec.n && dec.n <= 4611686018427387904
+//@ ghost total = 0
 //@ cut after call ReadFull #*
 //@ + ghost failed = failed || !isnil(callresult1)
+//@ + ghost total = total + callresult0
 //@ cut after call SetBytesCanonical #*
 //@ + ghost failed = failed || !isnil(callresult)
 //@ loop 0
@@ -122,6 +136,7 @@ package grumpkin
 //@ + invariant[index] 0 <= iter && iter <= 1099511627776
 //@ + invariant[no-failure-so-far] !failed
 //@ ensures[no-hidden-error] isnil(err) ==> !failed
+//@ ensures[byte-counter] dec.n == old(dec.n) + total
 //@ modifies dec, v
 //@ end
 
@@ -131,8 +146,11 @@ package grumpkin
 //@ option opaque-calls
 //@ option nomerge
 //@ ghost failed = false
+//@ requires 0 <= dec.n && dec.n <= 4611686018427387904
+//@ ghost total = 0
 //@ cut after call ReadFull #*
 //@ + ghost failed = failed || !isnil(callresult1)
+//@ + ghost total = total + callresult0
 //@ cut after call SetBytesCanonical #*
 //@ + ghost failed = failed || !isnil(callresult)
 //@ loop 0
@@ -160,6 +178,7 @@ package grumpkin
 //@ + invariant[index] 0 <= iter && iter <= 1099511627776
 //@ + invariant[no-failure-so-far] !failed
 //@ ensures[no-hidden-error] isnil(err) ==> !failed
+//@ ensures[byte-counter] dec.n == old(dec.n) + total
 //@ modifies dec, v
 //@ end
 
@@ -318,8 +337,11 @@ package grumpkin
 //@ option opaque-calls
 //@ option nomerge
 //@ ghost failed = false
+//@ requires 0 <= dec.n && dec.n <= 4611686018427387904
+//@ ghost total = 0
 //@ cut after call ReadFull #*
 //@ + ghost failed = failed || !isnil(callresult1)
+//@ + ghost total = total + callresult0
 //@ cut after call setBytes #*
 //@ + ghost failed = failed || !isnil(callresult1)
 //@ loop 0
@@ -347,6 +369,7 @@ package grumpkin
 //@ + invariant[index] 0 <= iter && iter <= 1099511627776
 //@ + invariant[no-failure-so-far] !failed
 //@ ensures[no-hidden-error] isnil(err) ==> !failed
+//@ ensures[byte-counter] dec.n == old(dec.n) + total
 //@ modifies dec, v
 //@ end
 
@@ -357,8 +380,11 @@ package grumpkin
 //@ option nomerge
 //@ option struct-slices
 //@ ghost failed = false
+//@ requires 0 <= enc.n && enc.n <= 4611686018427387904
+//@ ghost total = 0
 //@ cut after call io.Writer.Write #*
 //@ + ghost failed = failed || !isnil(callresult1)
+//@ + ghost total = total + callresult0
 //@ loop 0
 //@ + invariant[index] 0 <= iter && iter <= 1099511627776
 //@ + invariant[no-failure-so-far] !failed
@@ -372,6 +398,7 @@ package grumpkin
 //@ + invariant[index] 0 <= iter && iter <= 1099511627776
 //@ + invariant[no-failure-so-far] !failed
 //@ ensures[no-hidden-error] isnil(err) ==> !failed
+//@ ensures[byte-counter] enc.n == old(enc.n) + total
 //@ modifies enc
 //@ end
 
@@ -382,8 +409,11 @@ package grumpkin
 //@ option nomerge
 //@ option struct-slices
 //@ ghost failed = false
+//@ requires 0 <= enc.n && enc.n <= 4611686018427387904
+//@ ghost total = 0
 //@ cut after call io.Writer.Write #*
 //@ + ghost failed = failed || !isnil(callresult1)
+//@ + ghost total = total + callresult0
 //@ loop 0
 //@ + invariant[index] 0 <= iter && iter <= 1099511627776
 //@ + invariant[no-failure-so-far] !failed
@@ -397,6 +427,7 @@ package grumpkin
 //@ + invariant[index] 0 <= iter && iter <= 1099511627776
 //@ + invariant[no-failure-so-far] !failed
 //@ ensures[no-hidden-error] isnil(err) ==> !failed
+//@ ensures[byte-counter] enc.n == old(enc.n) + total
 //@ modifies enc
 //@ end
 
@@ -512,8 +543,11 @@ package grumpkin
 //@ option nomerge
 //@ option struct-slices
 //@ ghost failed = false
+//@ requires 0 <= enc.n && enc.n <= 4611686018427387904
+//@ ghost total = 0
 //@ cut after call io.Writer.Write #*
 //@ + ghost failed = failed || !isnil(callresult1)
+//@ + ghost total = total + callresult0
 //@ cut before call io.Writer.Write #*
 //@ + invariant[bytes-of-the-point] called(Bytes) && len(callarg1) == len(resultof_Bytes) && forall(j, 0, len(resultof_Bytes), callarg1[j] == resultof_Bytes[j])
 //@ loop 0
@@ -529,6 +563,7 @@ package grumpkin
 //@ + invariant[index] 0 <= iter && iter <= 1099511627776
 //@ + invariant[no-failure-so-far] !failed
 //@ ensures[no-hidden-error] isnil(err) ==> !failed
+//@ ensures[byte-counter] enc.n == old(enc.n) + total
 //@ modifies enc
 //@ end
 
@@ -568,8 +603,11 @@ package grumpkin
 //@ option nomerge
 //@ option struct-slices
 //@ ghost failed = false
+//@ requires 0 <= enc.n && enc.n <= 4611686018427387904
+//@ ghost total = 0
 //@ cut after call io.Writer.Write #*
 //@ + ghost failed = failed || !isnil(callresult1)
+//@ + ghost total = total + callresult0
 //@ loop 0
 //@ + invariant[index] 0 <= iter && iter <= 1099511627776
 //@ + invariant[no-failure-so-far] !failed
@@ -583,6 +621,7 @@ package grumpkin
 //@ + invariant[index] 0 <= iter && iter <= 1099511627776
 //@ + invariant[no-failure-so-far] !failed
 //@ ensures[no-hidden-error] isnil(err) ==> !failed
+//@ ensures[byte-counter] enc.n == old(enc.n) + total
 //@ modifies enc
 //@ end
 
@@ -593,8 +632,11 @@ package grumpkin
 //@ option nomerge
 //@ option struct-slices
 //@ ghost failed = false
+//@ requires 0 <= enc.n && enc.n <= 4611686018427387904
+//@ ghost total = 0
 //@ cut after call io.Writer.Write #*
 //@ + ghost failed = failed || !isnil(callresult1)
+//@ + ghost total = total + callresult0
 //@ loop 0
 //@ + invariant[index] 0 <= iter && iter <= 1099511627776
 //@ + invariant[no-failure-so-far] !failed
@@ -608,6 +650,7 @@ package grumpkin
 //@ + invariant[index] 0 <= iter && iter <= 1099511627776
 //@ + invariant[no-failure-so-far] !failed
 //@ ensures[no-hidden-error] isnil(err) ==> !failed
+//@ ensures[byte-counter] enc.n == old(enc.n) + total
 //@ modifies enc
 //@ end
 
@@ -723,8 +766,11 @@ package grumpkin
 //@ option nomerge
 //@ option struct-slices
 //@ ghost failed = false
+//@ requires 0 <= enc.n && enc.n <= 4611686018427387904
+//@ ghost total = 0
 //@ cut after call io.Writer.Write #*
 //@ + ghost failed = failed || !isnil(callresult1)
+//@ + ghost total = total + callresult0
 //@ cut before call io.Writer.Write #*
 //@ + invariant[bytes-of-the-point] called(RawBytes) && len(callarg1) == len(resultof_RawBytes) && forall(j, 0, len(resultof_RawBytes), callarg1[j] == resultof_RawBytes[j])
 //@ loop 0
@@ -740,6 +786,7 @@ package grumpkin
 //@ + invariant[index] 0 <= iter && iter <= 1099511627776
 //@ + invariant[no-failure-so-far] !failed
 //@ ensures[no-hidden-error] isnil(err) ==> !failed
+//@ ensures[byte-counter] enc.n == old(enc.n) + total
 //@ modifies enc
 //@ end
 
